@@ -33,7 +33,7 @@ lane() {
     # a change that only exists in some feature configurations (names ending in _O) is also shown to
     # C20's configuration sweep, whose clause "enabling a feature does not change the others" it breaks
     rc20=""; nv20=0; first20=""
-    case $n in *_O) if [ "$prop" != "C20" ]; then
+    case $n in *_O) if [ "$prop" != "C20" ] && [ -z "$EVAL_NO_C20" -o "$rc" != "1" ] && [ -z "$EVAL_NEVER_C20" ]; then
       out20=$(./check C20 --tier "$TIER" 2>>$D/err_$n.log); rc20=$?
       nv20=$(echo "$out20" | grep -c "^VIOLATION")
       first20=$(echo "$out20" | grep -A1 "^VIOLATION" | grep -v "^VIOLATION" | head -1 | cut -c1-400)
